@@ -59,7 +59,9 @@ func (m *aesModel) install(ex *core.Exec) {
 	}
 }
 
-func srcByte(name string, i int) core.BitVec { return core.SourceVec(fmt.Sprintf("%s[%d]", name, i), 8) }
+func srcByte(name string, i int) core.BitVec {
+	return core.SourceVec(fmt.Sprintf("%s[%d]", name, i), 8)
+}
 
 // encOf returns the number n when v is E<n>[idx] xor with[idx] (idx given), else 0.
 func encOf(v core.BitVec, idx int, with string) int {
@@ -351,4 +353,375 @@ func r15opcX(c *core.Ctx) {
 		}
 	}
 	c.Check(okE && okX && okK, R, "milenage.GenerateOPC", fn.Pos(), "OPc = E_K(OP) xor OP", "OPc must be E_K(OP) xor OP (key=K ok %v, encrypt OP ok %v, xor OP ok %v)", okK, okE, okX)
+}
+
+// ---------------------------------------------------------------- R15.flow on the evaluator
+// Milenage_check / Milenage_auts are interpreted with f1, f2345, os_memcmp and the slice-equality
+// predicates summarised: f2345 writes the named octets RES/CK/IK/AK/AK* of its (OPc, K, RAND)
+// into the buffers it is given, f1 number n writes MACA<n>/MACS<n> and records the SQN and AMF
+// octets it was handed, os_memcmp number n returns the signed source cmp<n>, an equality
+// predicate the boolean eq<n>. The flow is then read off the outcomes: which comparison
+// results lead to which return value, and what the compared and produced octets are.
+
+type milF1 struct {
+	n          int
+	sqn, amf   []string
+	triple     string
+	macA, macS bool
+}
+
+type milCmp struct {
+	n    int
+	a, b []string
+	len  int
+	kind string // memcmp | equal
+}
+
+type milFlow struct {
+	f1    map[int]*milF1
+	cmps  map[int]*milCmp
+	f2345 map[int][]string // index -> outputs requested ("RES","CK",...), with the triple first
+}
+
+func (mf *milFlow) install(ex *core.Exec) {
+	mf.f1, mf.cmps, mf.f2345 = map[int]*milF1{}, map[int]*milCmp{}, map[int][]string{}
+	cells := func(m *core.AMem, v core.AVal, n int) []string {
+		var out []string
+		if v.K != core.ASlice || v.Lo < 0 {
+			return []string{"?" + core.ArgName(v)}
+		}
+		for i := 0; i < n; i++ {
+			out = append(out, core.ArgName(m.Load(fmt.Sprintf("%s[%d]", v.Path, v.Lo+i), types8)))
+		}
+		return out
+	}
+	fill := func(m *core.AMem, v core.AVal, name string, n int) bool {
+		if v.K != core.ASlice || v.Lo < 0 {
+			return false
+		}
+		for i := 0; i < n; i++ {
+			m.Store(fmt.Sprintf("%s[%d]", v.Path, v.Lo+i), core.ArgBits(fmt.Sprintf("%s[%d]", name, i), 8, 8), nil)
+		}
+		return true
+	}
+	ex.OnCall = func(ev *core.AEvent, m *core.AMem) (core.AVal, bool) {
+		a := ev.Args
+		switch ev.Callee {
+		case pMil + ".milenageF2345":
+			if len(a) != 8 {
+				return core.AVal{}, false
+			}
+			t := core.ArgName(a[0]) + "," + core.ArgName(a[1]) + "," + core.ArgName(a[2])
+			outs := []string{t}
+			for i, o := range []struct {
+				name string
+				n    int
+			}{{"RES", 8}, {"CK", 16}, {"IK", 16}, {"AK", 6}, {"AK*", 6}} {
+				if fill(m, a[3+i], o.name+"("+t+")", o.n) {
+					outs = append(outs, o.name)
+				}
+			}
+			mf.f2345[ev.Index] = outs
+			return core.NilArg(), true
+		case pMil + ".milenageF1":
+			if len(a) != 7 {
+				return core.AVal{}, false
+			}
+			f := &milF1{n: ev.Index, sqn: cells(m, a[3], 6), amf: cells(m, a[4], 2), triple: core.ArgName(a[0]) + "," + core.ArgName(a[1]) + "," + core.ArgName(a[2])}
+			f.macA = fill(m, a[5], fmt.Sprintf("MACA%d", ev.Index), 8)
+			f.macS = fill(m, a[6], fmt.Sprintf("MACS%d", ev.Index), 8)
+			mf.f1[ev.Index] = f
+			return core.NilArg(), true
+		case pMil + ".os_memcmp":
+			if len(a) == 3 {
+				if n, ok := a[2].ConstVal(); ok && n <= 64 {
+					mf.cmps[ev.Index] = &milCmp{n: ev.Index, a: cells(m, a[0], int(n)), b: cells(m, a[1], int(n)), len: int(n), kind: "memcmp"}
+					return core.ArgNamed(fmt.Sprintf("cmp%d", ev.Index), ev.Site.Type()), true
+				}
+			}
+		case "reflect.DeepEqual", "bytes.Equal":
+			if len(a) == 2 && a[0].K == core.ASlice && a[1].K == core.ASlice && a[0].Len >= 0 && a[0].Len == a[1].Len {
+				mf.cmps[ev.Index] = &milCmp{n: ev.Index, a: cells(m, a[0], a[0].Len), b: cells(m, a[1], a[1].Len), len: a[0].Len, kind: "equal"}
+				return core.ArgBits(fmt.Sprintf("eq%d", ev.Index), 1, 1), true
+			}
+		}
+		return core.AVal{}, false
+	}
+}
+
+func xorNames(x, y string, n, off int) []string {
+	var out []string
+	for i := 0; i < n; i++ {
+		a, b := fmt.Sprintf("%s[%d]", x, off+i), fmt.Sprintf("%s[%d]", y, i)
+		if b < a {
+			a, b = b, a
+		}
+		out = append(out, "("+a+"⊕"+b+")")
+	}
+	return out
+}
+
+func sameStrs(a, b []string) bool { return strings.Join(a, ",") == strings.Join(b, ",") }
+
+func retInt(o core.AOutcome) (int64, bool) {
+	if len(o.Ret) != 1 {
+		return 0, false
+	}
+	k, ok := o.Ret[0].ConstVal()
+	return int64(k), ok
+}
+
+func r15checkX(c *core.Ctx) {
+	const R = "R15.flow"
+	c.Rule(R, "Milenage_check / Milenage_auts: SQN recovery, resync iff memcmp(rxSQN, SQN, 6) <= 0, accept iff MAC-A equal over 8 octets; AUTS built/verified with AMF 00 00 over the UE's SQN")
+	fn := mustFunc(c, pMil, "Milenage_check")
+	// Milenage_check(opc, k, sqn, _rand, autn, ik, ck, res, res_len, auts)
+	if len(fn.Params) != 10 {
+		c.SoftUndecided("R15.flow: Milenage_check does not have its ten parameters")
+		return
+	}
+	var mf milFlow
+	ex := core.NewExec()
+	mf.install(ex)
+	args := core.DefaultArgs(fn)
+	for i := range args {
+		args[i] = core.NonNilArg(args[i])
+	}
+	outs, err := ex.Run(fn, args, nil)
+	if err != nil || len(ex.Unsound) > 0 {
+		c.SoftUndecided("R15.flow: Milenage_check could not be evaluated (%v %v)", err, ex.Unsound)
+		return
+	}
+	const T = "p0,p1,p3"
+	ak := "AK(" + T + ")"
+	akStar := "AK*(" + T + ")"
+	rx := xorNames("p4", ak, 6, 0) // autn[i] ^ AK[i]; names sorted inside
+	for i := range rx {
+		a, b := fmt.Sprintf("%s[%d]", ak, i), fmt.Sprintf("p4[%d]", i)
+		if b < a {
+			a, b = b, a
+		}
+		rx[i] = "(" + a + "⊕" + b + ")"
+	}
+	okFirst, okRx, okFresh, okGuard, okResync, okMac := true, true, true, true, true, true
+	sawAccept, sawResync := false, false
+	why := map[string]string{}
+	for _, o := range outs {
+		if o.Panicked {
+			continue
+		}
+		rv, isK := retInt(o)
+		if !isK {
+			continue
+		}
+		// events of this path, in order
+		var f2, f1s, cms []int
+		for _, ev := range o.Trace {
+			switch {
+			case ev.Callee == pMil+".milenageF2345":
+				f2 = append(f2, ev.Index)
+			case ev.Callee == pMil+".milenageF1":
+				f1s = append(f1s, ev.Index)
+			case mf.cmps[ev.Index] != nil && (ev.Callee == pMil+".os_memcmp" || ev.Callee == "reflect.DeepEqual" || ev.Callee == "bytes.Equal"):
+				cms = append(cms, ev.Index)
+			}
+		}
+		if len(f2) == 0 {
+			continue
+		}
+		// first f2345: RES, CK, IK, AK of (OPc, K, RAND) into the caller's buffers and a local AK
+		first := mf.f2345[f2[0]]
+		if !(len(first) == 5 && first[0] == T && first[1] == "RES" && first[2] == "CK" && first[3] == "IK" && first[4] == "AK") {
+			okFirst = false
+			why["f2345"] = fmt.Sprint(first)
+		}
+		if len(cms) == 0 {
+			continue
+		}
+		fresh := mf.cmps[cms[0]]
+		ueSqn := []string{"p2[0]", "p2[1]", "p2[2]", "p2[3]", "p2[4]", "p2[5]"}
+		if fresh.kind != "memcmp" || fresh.len != 6 || !sameStrs(fresh.b, ueSqn) {
+			okFresh = false
+			why["freshness"] = fmt.Sprintf("compares %v with %v over %d octets", fresh.a, fresh.b, fresh.len)
+		}
+		if !sameStrs(fresh.a, rx) {
+			okRx = false
+			why["rx-sqn"] = fmt.Sprint(fresh.a)
+		}
+		sf, hasSign := o.SFacts[fmt.Sprintf("cmp%d", fresh.n)]
+		older := hasSign && sf[1] <= 0 // memcmp(rx, ue) <= 0
+		newer := hasSign && sf[0] >= 1
+		switch rv {
+		case -2:
+			sawResync = true
+			if !older {
+				okFresh = false
+				why["freshness"] = "resynchronisation is answered on a path where memcmp(rxSQN, ueSQN, 6) <= 0 is not established"
+			}
+			// AK* requested alone, AUTS = (SQN_ue xor AK*) || f1*(SQN_ue, 00 00)
+			good := len(f2) == 2 && len(f1s) == 1
+			if good {
+				second := mf.f2345[f2[1]]
+				good = len(second) == 2 && second[0] == T && second[1] == "AK*"
+				f := mf.f1[f1s[0]]
+				good = good && f.triple == T && sameStrs(f.sqn, ueSqn) && sameStrs(f.amf, []string{"0", "0"}) && !f.macA && f.macS
+				var auts []string
+				for i := 0; i < 14; i++ {
+					auts = append(auts, core.ArgName(o.Mem.Load(fmt.Sprintf("p9[%d]", i), types8)))
+				}
+				var want []string
+				for i := 0; i < 6; i++ {
+					a, b := fmt.Sprintf("%s[%d]", akStar, i), fmt.Sprintf("p2[%d]", i)
+					if b < a {
+						a, b = b, a
+					}
+					want = append(want, "("+a+"⊕"+b+")")
+				}
+				for i := 0; i < 8; i++ {
+					want = append(want, fmt.Sprintf("MACS%d[%d]", f.n, i))
+				}
+				if !sameStrs(auts, want) {
+					good = false
+					why["resync"] = fmt.Sprintf("AUTS is %v", auts)
+				}
+			}
+			if !good {
+				okResync = false
+			}
+		case 0:
+			sawAccept = true
+			if !newer {
+				okGuard = false
+			}
+			good := len(f1s) == 1 && len(cms) == 2
+			if good {
+				f := mf.f1[f1s[0]]
+				mc := mf.cmps[cms[1]]
+				var macA, autnMac []string
+				for i := 0; i < 8; i++ {
+					macA = append(macA, fmt.Sprintf("MACA%d[%d]", f.n, i))
+					autnMac = append(autnMac, fmt.Sprintf("p4[%d]", 8+i))
+				}
+				good = f.triple == T && sameStrs(f.sqn, rx) && sameStrs(f.amf, []string{"p4[6]", "p4[7]"}) && f.macA && !f.macS &&
+					mc.len == 8 && ((sameStrs(mc.a, macA) && sameStrs(mc.b, autnMac)) || (sameStrs(mc.b, macA) && sameStrs(mc.a, autnMac)))
+				// accepted only when the comparison says equal
+				if mc.kind == "memcmp" {
+					sf2, has2 := o.SFacts[fmt.Sprintf("cmp%d", mc.n)]
+					good = good && has2 && sf2[0] == 0 && sf2[1] == 0
+				} else {
+					f2v, has2 := o.Facts[fmt.Sprintf("eq%d", mc.n)]
+					good = good && has2 && f2v[0] == 1
+				}
+				if !good {
+					why["mac"] = fmt.Sprintf("f1 over sqn %v amf %v; compares %v with %v over %d", f.sqn, f.amf, mc.a, mc.b, mc.len)
+				}
+			}
+			if !good {
+				okMac = false
+			}
+		}
+	}
+	pos := fn.Pos()
+	c.Check(okFirst, R, "milenage.Milenage_check:f2345", pos, "f2345(OPc,K,RAND → RES,CK,IK,AK)", "first f2345 call must produce RES, CK, IK and AK; produces %s", why["f2345"])
+	c.Check(okRx, R, "milenage.Milenage_check:rx-sqn", pos, "rxSQN = AUTN[0:6] xor AK", "the received SQN must be AUTN[i] xor AK[i]; the freshness test compares %s", why["rx-sqn"])
+	c.Check(okFresh && sawResync, R, "milenage.Milenage_check:freshness", pos, "resync iff memcmp(rxSQN, SQN, 6) <= 0", "freshness test must be memcmp(rxSQN, ueSQN, 6) <= 0 (all 6 octets): %s", why["freshness"])
+	c.Check(okGuard && sawAccept, R, "milenage.Milenage_check:freshness-guards-accept", pos, "MAC-A is verified only after SQN was found greater than the UE's",
+		"acceptance (return 0) can be reached without the freshness test memcmp(rxSQN, ueSQN, 6) <= 0 having been evaluated and found false: an AUTN whose SQN is not greater than the UE's (a replay) is accepted on that path")
+	c.Check(okResync && sawResync, R, "milenage.Milenage_check:resync", pos, "AUTS = (SQN_ue xor AK*) || f1*(SQN_ue, AMF 00 00)", "resynchronisation must compute AK* (f5*), AUTS[0:6] = SQN_ue xor AK*, AUTS[6:14] = f1*(SQN_ue, AMF=0000): %s", why["resync"])
+	c.Check(okMac && sawAccept, R, "milenage.Milenage_check:mac", pos, "accept iff memcmp(f1(rxSQN, AUTN.AMF), AUTN[8:], 8) == 0", "acceptance must compare MAC-A = f1(rxSQN, AMF of AUTN) with AUTN[8:16] over all 8 octets and reject on any difference: %s", why["mac"])
+}
+
+func r15autsX(c *core.Ctx) {
+	const R = "R15.flow"
+	fn := mustFunc(c, pMil, "Milenage_auts")
+	// Milenage_auts(opc, k, _rand, auts, sqn)
+	if len(fn.Params) != 5 {
+		c.SoftUndecided("R15.flow: Milenage_auts does not have its five parameters")
+		return
+	}
+	var mf milFlow
+	ex := core.NewExec()
+	mf.install(ex)
+	args := core.DefaultArgs(fn)
+	for i := range args {
+		args[i] = core.NonNilArg(args[i])
+	}
+	outs, err := ex.Run(fn, args, nil)
+	if err != nil || len(ex.Unsound) > 0 {
+		c.SoftUndecided("R15.flow: Milenage_auts could not be evaluated (%v %v)", err, ex.Unsound)
+		return
+	}
+	const T = "p0,p1,p2"
+	akStar := "AK*(" + T + ")"
+	var sqn []string
+	for i := 0; i < 6; i++ {
+		a, b := fmt.Sprintf("%s[%d]", akStar, i), fmt.Sprintf("p3[%d]", i)
+		if b < a {
+			a, b = b, a
+		}
+		sqn = append(sqn, "("+a+"⊕"+b+")")
+	}
+	okRec, okCmp, sawOK := true, true, false
+	whyR, whyC := "", "none"
+	for _, o := range outs {
+		rv, isK := retInt(o)
+		if !isK || o.Panicked {
+			continue
+		}
+		var f2, f1s, cms []int
+		for _, ev := range o.Trace {
+			switch {
+			case ev.Callee == pMil+".milenageF2345":
+				f2 = append(f2, ev.Index)
+			case ev.Callee == pMil+".milenageF1":
+				f1s = append(f1s, ev.Index)
+			case mf.cmps[ev.Index] != nil:
+				cms = append(cms, ev.Index)
+			}
+		}
+		if rv != 0 {
+			continue
+		}
+		sawOK = true
+		good := len(f2) == 1 && len(f1s) == 1
+		if good {
+			second := mf.f2345[f2[0]]
+			f := mf.f1[f1s[0]]
+			good = len(second) == 2 && second[0] == T && second[1] == "AK*" && f.triple == T && sameStrs(f.sqn, sqn) && sameStrs(f.amf, []string{"0", "0"}) && !f.macA && f.macS
+			var out []string
+			for i := 0; i < 6; i++ {
+				out = append(out, core.ArgName(o.Mem.Load(fmt.Sprintf("p4[%d]", i), types8)))
+			}
+			good = good && sameStrs(out, sqn)
+			if !good {
+				whyR = fmt.Sprintf("f5* outputs %v; f1* over sqn %v amf %v; sqn out %v", second, f.sqn, f.amf, out)
+			}
+		}
+		if !good {
+			okRec = false
+		}
+		goodC := len(cms) == 1 && len(f1s) == 1
+		if goodC {
+			mc := mf.cmps[cms[0]]
+			var macS, autsMac []string
+			for i := 0; i < 8; i++ {
+				macS = append(macS, fmt.Sprintf("MACS%d[%d]", f1s[0], i))
+				autsMac = append(autsMac, fmt.Sprintf("p3[%d]", 6+i))
+			}
+			goodC = mc.len == 8 && ((sameStrs(mc.a, macS) && sameStrs(mc.b, autsMac)) || (sameStrs(mc.b, macS) && sameStrs(mc.a, autsMac)))
+			if mc.kind == "memcmp" {
+				sf, has := o.SFacts[fmt.Sprintf("cmp%d", mc.n)]
+				goodC = goodC && has && sf[0] == 0 && sf[1] == 0
+			} else {
+				fv, has := o.Facts[fmt.Sprintf("eq%d", mc.n)]
+				goodC = goodC && has && fv[0] == 1
+			}
+			whyC = fmt.Sprintf("%s(%v, %v) over %d octets", mc.kind, mc.a, mc.b, mc.len)
+		}
+		if !goodC {
+			okCmp = false
+		}
+	}
+	c.Check(okRec && sawOK, R, "milenage.Milenage_auts:recompute", fn.Pos(), "SQN = AUTS[0:6] xor AK*; MAC-S = f1*(SQN, AMF 00 00)", "AUTS validation must recover SQN with AK* and recompute f1* over it with AMF 0000 (%s)", whyR)
+	c.Check(okCmp && sawOK, R, "milenage.Milenage_auts:mac-s-compare", fn.Pos(), "all 8 octets of MAC-S compared with AUTS[6:14]", "MAC-S must be compared with AUTS[6:14] over all 8 octets and only equality accepted; comparison found: %s", whyC)
 }
